@@ -80,9 +80,13 @@ use libc::vshim::mem;
 use std::ptr;
 // Once::new is now a const-fn. But it is not stable in all the rustc versions we want to support
 // yet.
+#[cfg(not(sighook_verif))]
 #[allow(deprecated)]
 use std::sync::ONCE_INIT;
+#[cfg(not(sighook_verif))]
 use std::sync::{Arc, Once};
+#[cfg(sighook_verif)]
+use libc::vshim::sync::{Arc, Once, ONCE_INIT};
 
 #[cfg(not(windows))]
 use libc::{c_int, c_void, sigaction, siginfo_t};
